@@ -263,7 +263,7 @@ def gen_case(rng, spec):
         return {'kind': 'deep', 'shape': 'deep', 'depth': rng.choice(spec['depths']), 'dseed': rng.getrandbits(32),
                 'n_in': rng.randint(2, 3), 'rseed': rng.getrandbits(32), 'shuffle': False, 'edited': False}
     shape = rng.choice(netgen.SHAPES)
-    net = netgen.rand_net(rng, shape=shape, max_in=5, max_g=spec.get('max_g', 12), max_arity=4)
+    net = netgen.rand_net(rng, shape=shape, max_in=5, min_in=0 if rng.random() < 0.06 else 1, max_g=spec.get('max_g', 12), max_arity=4)
     return {'kind': 'random', 'shape': shape, 'net': netgen.describe(net), 'rseed': rng.getrandbits(32),
             'shuffle': rng.random() < 0.2, 'edited': rng.random() < 0.3}
 
